@@ -97,7 +97,8 @@ def run_modules(chk, wd, quick):
         for tag, text, res in ex.map(work, mods):
             chk.count(('module', hashlib.sha1(text.encode()).hexdigest()), nontrivial=True, n=len(args))
             chk.dist('module_insns', 'lines', text.count('\n'))
-            for kw in ('switch', 'addo', 'subo', 'mulo', 'call', 'bss', 'string', 'ref '):
+            for kw in ('switch', 'addo', 'subo', 'mulo', 'call', 'bss', 'string', 'ref ', 'alloca p1', 'bstart', 'addr p1', 'addr8', 'addr16',
+                       'addr32', 'laddr', 'jmpi', 'call p_hva', 'blk:16(p1)', 'ldadd', 'ld2i'):
                 if kw in text:
                     chk.dist('module_features', kw.strip())
             if res is None:
